@@ -46,6 +46,8 @@ def enumerate_cases(tier, seed):
         for v in space.program_variants(t)[1:]:
             var.append({"fam": f, "outs": v, "orders": True})
     l2 = [{"fam": f, "outs": [["out", t]]} for f, t in space.l2("quick")]
+    sib = [{"fam": f, "outs": o} for f, o in space.sibling_pair_programs()]
+    cases += sib if tier != "quick" else runner.slice_by_seed(sib, seed, 3)
     if tier == "quick":
         var = runner.slice_by_seed(var, seed, VAR_SLICES_QUICK)
         l2 = runner.slice_by_seed(l2, seed, L2_SLICES_QUICK)
